@@ -133,6 +133,9 @@ def _run(ctx):
             g = generic_path(p)
             if roles.is_workspace_fn(P, p) or PRODUCER_OK.search(g):
                 continue
+            if re.match(r"^(std|core)::(slice::Iter(Mut)?<|iter::(FilterMap|Filter|Map|Enumerate|Rev|Skip|Take|Zip|Peekable|Cloned|Copied)<)", ty):
+                continue        # a lazy *view* over existing messages (`messages.iter().filter_map(..)` to describe them): it builds none;
+                                # collecting it back into a Vec<CosmosMsg> is a producer call of its own and still listed
             gcl_ = P.fn(p)
             if gcl_ is not None and gcl_.kind == "closure" and common.local_closure_helper(P, gcl_):
                 continue        # a local closure called like a function: its messages are reported at the call (message_sites)
